@@ -360,13 +360,20 @@ pub fn check_incremental(case: &IncCase) -> Verdict {
                     if !*direct {
                         inc.new_document.set_object(r, res.to_object());
                         edited.insert(r, res);
+                        // a second page sharing the same resources object (the usual layout of real files)
+                        if let Some(p2) = ids.iter().find(|id| **id != p && **id != r).cloned() {
+                            let page2 = AObj::dict(vec![("VPage", AObj::Int(2)), ("Resources", AObj::Ref(r.0, r.1))]);
+                            inc.new_document.set_object(p2, page2.to_object());
+                            edited.insert(p2, page2);
+                        }
                     }
                 }
                 Edit::AddResources(items, ts) => {
                     let current = |id: &(u32, u16)| edited.get(id).or_else(|| model.get(id)).cloned();
-                    let Some(p) = ids.iter().chain(edited.keys()).find(|id| current(id).map(|o| o.get("VPage").is_some()).unwrap_or(false)).cloned() else { continue };
+                    let Some(p1) = ids.iter().chain(edited.keys()).find(|id| current(id).map(|o| o.get("VPage") == Some(&AObj::Int(1))).unwrap_or(false)).cloned() else { continue };
+                    let p2 = ids.iter().chain(edited.keys()).find(|id| current(id).map(|o| o.get("VPage") == Some(&AObj::Int(2))).unwrap_or(false)).cloned();
                     let target = ids[(*ts as usize * ids.len()) >> 16];
-                    let page = current(&p).unwrap();
+                    let page = current(&p1).unwrap();
                     let res_ref = match page.get("Resources") {
                         Some(AObj::Ref(n, g)) => Some((*n, *g)),
                         _ => None,
@@ -379,7 +386,16 @@ pub fn check_incremental(case: &IncCase) -> Verdict {
                         },
                         None => page.clone(),
                     };
+                    let mut pages_used: Vec<(u32, u16)> = vec![];
                     for (gs, k) in items {
+                        // the second page (when there is one) reaches the same resources object by another route
+                        let p = match (p2, k & 4 != 0) {
+                            (Some(q), true) => q,
+                            _ => p1,
+                        };
+                        if !pages_used.contains(&p) {
+                            pages_used.push(p);
+                        }
                         let name = format!("N{}", k % 4);
                         let r = if *gs {
                             no_panic("IncrementalDocument::add_graphics_state", || inc.add_graphics_state(p, name.as_bytes().to_vec(), target))?
@@ -409,11 +425,14 @@ pub fn check_incremental(case: &IncCase) -> Verdict {
                     // the page is cloned into the new revision in any case; the resources object when it is separate
                     match res_ref {
                         Some(r) => {
+                            let cloned_pages: Vec<((u32, u16), AObj)> = pages_used.iter().map(|q| (*q, current(q).unwrap())).collect();
                             edited.insert(r, holder);
-                            edited.insert(p, page);
+                            for (q, cur) in cloned_pages {
+                                edited.insert(q, cur);
+                            }
                         }
                         None => {
-                            edited.insert(p, holder);
+                            edited.insert(p1, holder);
                         }
                     }
                 }
@@ -503,7 +522,7 @@ pub fn inc_strategy(o: WOpts) -> BoxedStrategy<IncCase> {
         (any::<u16>(), g::top_object(o.doc.obj)).prop_map(|(s, ob)| Edit::Set(s, ob)),
         g::top_object(o.doc.obj).prop_map(Edit::Add),
         (any::<u16>(), any::<u16>(), any::<bool>()).prop_map(|(p, r, d)| Edit::InstallPage(p, r, d)),
-        (vec((any::<bool>(), 0u8..4), 1..4), any::<u16>()).prop_map(|(items, t)| Edit::AddResources(items, t)),
+        (vec((any::<bool>(), 0u8..8), 1..4), any::<u16>()).prop_map(|(items, t)| Edit::AddResources(items, t)),
     ];
     (wfile_strategy(o), any::<bool>(), vec(vec(edit, 1..5), 1..=4))
         .prop_map(|(base, base_by_lopdf, updates)| IncCase { base, base_by_lopdf, updates })
